@@ -42,6 +42,7 @@ PROPS["C02"] = dict(
     driver="coinswap",
     props_file="Props/C02.v",
     coq_targets=["Coinswap/Check.vo"],
+    extra_props_files=["Coinswap/LinkParamsProps.v"],
     check_module="Coinswap.Check",
     check_fn="check_case_C02",
     streams=[dict(name="c02", quick=240, thorough=8000, coq_shard=20)],
